@@ -3,18 +3,26 @@
 (* the shared reference terminal Terminal.tla (xterm / VT100 semantics, DESIGN.md App. E).   *)
 (*                                                                                            *)
 (* Part (a) faithfulness.  A command is a record [t, a, b, ps] (kind, two integer            *)
-(* parameters, SGR parameter list).  Ref(t, c) is what the reference VT100 does.             *)
+(* parameters, SGR parameter list / code points of a text run).  Ref(t, c) is what the       *)
+(* reference VT100 does.  Besides the subset the property lists (Listed) the contract covers  *)
+(* what a VT100 documents next to it (Ext): text runs, IND / NEL, CHA / VPA / CNL / CPL, ECH, *)
+(* tab stops (HT / HTS / TBC), origin / insert / autowrap / new-line mode, save and restore   *)
+(* cursor (ESC 7 / ESC 8, CSI s / CSI u), charsets (SO / SI / SCS), and the queries DSR, CPR  *)
+(* and DA (Query, Replies).                                                                   *)
 (* Cands(t, c, strict) is the sequence of terminal states the trace specification accepts    *)
 (* after c: always Ref first; when not strict also the "console dialect" results, the points *)
 (* where the Linux console (TERM=linux is what urwid.vterm.Terminal announces to the hosted  *)
-(* program) differs from xterm: CUU/CUD do not stop at the margins, IL/DL keep the cursor    *)
-(* column and act from the cursor row down to the bottom margin even above the top margin,   *)
-(* DECSTBM with a bottom beyond the screen is ignored.  A difference that only the strict    *)
-(* run rejects is reported as DIVERGENCE, never as a violation.                               *)
+(* program) differs from xterm: CUU/CUD/CNL/CPL do not stop at the margins, IL/DL keep the   *)
+(* cursor column and act from the cursor row down to the bottom margin even above the top    *)
+(* margin, DECSTBM with a bottom beyond the screen is ignored, HT clears the last-column     *)
+(* flag, ESC 8 with nothing saved does nothing, CPR in origin mode reports the screen row.   *)
+(* A difference that only the strict run rejects is reported as DIVERGENCE, never as a        *)
+(* violation.                                                                                 *)
 (* An observation is what the driver reads off the real emulator after a command:            *)
 (* g = rows of cells <<code point, fg, bg, flag mask>>, cur = <<x, y>>, sb = scrollback rows, *)
 (* pen = <<fg, bg, mask>> of the cell the emulator would paint next (empty_char()),          *)
-(* reg = <<top, bottom>> of the scrolling region.                                            *)
+(* reg = <<top, bottom>> of the scrolling region, tabs = tab stops inside the screen,        *)
+(* md = <<origin, insert, autowrap, new-line>> modes as 0 / 1, reps = replies sent.          *)
 (*                                                                                            *)
 (* Part (b) robustness: predicates over what is recorded per feed of arbitrary bytes.         *)
 EXTENDS Terminal
@@ -23,29 +31,116 @@ N1(n) == IF n < 1 THEN 1 ELSE n
 
 Cmd(tt, a, b, ps) == [t |-> tt, a |-> a, b |-> b, ps |-> ps]
 
+(* ---------------- extended terminal state ---------------- *)
+(* The reference terminal record of Terminal.tla carries autowrap (wrap), insert mode (irm), the charsets         *)
+(* (g0, g1, shift) and a set of DEC private modes (6 = origin mode).  The emulator contract needs three more      *)
+(* pieces of state: the tab stops, the saved cursor (position and rendition/charsets separately: CSI s saves the  *)
+(* position only, ESC 7 both) and new-line mode.  All Terminal operators are written with EXCEPT, so they carry   *)
+(* the extra fields along.                                                                                        *)
+DefaultTabs(w) == {x \in 0..(w - 1) : x % 8 = 0}
+NoSave == [pos |-> <<>>, at |-> <<>>]
+NewVT(w, h) ==
+  LET b == NewTerm(w, h) IN
+  [w |-> b.w, h |-> b.h, grid |-> b.grid, cx |-> b.cx, cy |-> b.cy, pend |-> b.pend, pen |-> b.pen,
+   irm |-> b.irm, wrap |-> b.wrap, g0 |-> b.g0, g1 |-> b.g1, shift |-> b.shift, curs |-> b.curs, modes |-> b.modes,
+   top |-> b.top, bot |-> b.bot, scrolled |-> b.scrolled, sb |-> b.sb,
+   tabs |-> DefaultTabs(w), sc |-> NoSave, lnm |-> FALSE]
+OM(t) == 6 \in t.modes                       \* origin mode (DECOM)
+ClampX(t, x) == Min2(Max2(x, 0), t.w - 1)
+ClampRow(t, y) == IF OM(t) THEN Min2(Max2(y, t.top), t.bot) ELSE Min2(Max2(y, 0), t.h - 1)
+
 (* ---------------- reference ---------------- *)
+\* one glyph of width 1.  Autowrap off (DECAWM reset): the glyph is placed under the cursor, the cursor stops at the
+\* right margin and the last-column flag is never set
+PutX(t, c) ==
+  IF t.wrap THEN Put(t, c, 1)
+  ELSE [t EXCEPT !.grid[t.cy + 1] = PlaceRow(t, t.grid[t.cy + 1], GlyphCells(t, c, 1)),
+                 !.cx = Min2(t.cx + 1, t.w - 1), !.pend = FALSE]
+\* a run of glyphs.  (TLC builds [x \in S |-> e] lazily and re-evaluates e at every application: without TLCEval the
+\* rows of a long run would be a chain of unevaluated functions, exponential in the length of the run.)
+Evaluated(t) == [t EXCEPT !.grid = TLCEval([y \in 1..t.h |-> TLCEval(t.grid[y])])]
+RECURSIVE PutAll(_, _, _)
+PutAll(t, ps, i) == IF i > Len(ps) THEN t ELSE PutAll(Evaluated(PutX(t, ps[i])), ps, i + 1)
+
+\* cursor addressing; in origin mode rows count from the top margin and the cursor cannot leave the region
+CUPo(t, x, y) == [t EXCEPT !.cx = ClampX(t, x), !.cy = ClampRow(t, (IF OM(t) THEN t.top ELSE 0) + Max2(y, 0)), !.pend = FALSE]
+CHA(t, n) == [t EXCEPT !.cx = ClampX(t, N1(n) - 1), !.pend = FALSE]
+VPA(t, n) == CUPo(t, t.cx, N1(n) - 1)
+CNL(t, n) == CR(CUD(t, N1(n)))
+CPL(t, n) == CR(CUU(t, N1(n)))
+DECSTBMo(t, a, b) ==       \* in origin mode the home position is the top margin
+  LET r == DECSTBM(t, a, b)
+      top == (IF a = 0 THEN 1 ELSE a) - 1
+      bot == (IF b = 0 \/ b > t.h THEN t.h ELSE b) - 1
+  IN IF OM(t) /\ top < bot THEN [r EXCEPT !.cy = r.top] ELSE r
+DECOM(t, on) == LET r == DecSet(t, 6, on) IN [r EXCEPT !.cx = 0, !.cy = IF on THEN r.top ELSE 0, !.pend = FALSE]
+
+\* tab stops
+NextStop(t) == LET s == {x \in t.tabs : x > t.cx /\ x < t.w} IN IF s = {} THEN t.w - 1 ELSE CHOOSE x \in s : \A y \in s : x <= y
+HT(t) == [t EXCEPT !.cx = NextStop(t)]                \* moves only: nothing is erased; the last-column flag is left alone
+HTS(t) == [t EXCEPT !.tabs = @ \cup {t.cx}]
+TBC(t, n) == IF n = 0 THEN [t EXCEPT !.tabs = @ \ {t.cx}] ELSE IF n = 3 THEN [t EXCEPT !.tabs = {}] ELSE t
+
+\* save / restore cursor: ESC 7 / ESC 8 (position, rendition, charsets), CSI s / CSI u (position)
+SavedAt(t) == <<[pen |-> t.pen, g0 |-> t.g0, g1 |-> t.g1, shift |-> t.shift]>>
+DECSC(t) == [t EXCEPT !.sc = [pos |-> <<t.cx, t.cy>>, at |-> SavedAt(t)]]
+SCOSC(t) == [t EXCEPT !.sc.pos = <<t.cx, t.cy>>]
+RestorePos(t) == [t EXCEPT !.cx = ClampX(t, t.sc.pos[1]), !.cy = ClampRow(t, t.sc.pos[2]), !.pend = FALSE]
+RestoreAt(t) == LET a == t.sc.at[1] IN [t EXCEPT !.pen = a.pen, !.g0 = a.g0, !.g1 = a.g1, !.shift = a.shift]
+DECRC(t) ==
+  IF t.sc.pos = <<>> THEN [t EXCEPT !.cx = 0, !.cy = IF OM(t) THEN t.top ELSE 0, !.pend = FALSE, !.pen = DefaultPen]   \* nothing saved: home
+  ELSE IF t.sc.at = <<>> THEN RestorePos(t) ELSE RestoreAt(RestorePos(t))
+SCORC(t) == IF t.sc.pos = <<>> THEN t ELSE RestorePos(t)
+
 Ref(t, c) ==
-  CASE c.t = "put"  -> Put(t, c.a, 1)
+  CASE c.t = "put"  -> PutX(t, c.a)
+    [] c.t = "txt"  -> PutAll(t, c.ps, 1)          \* a run of printable characters
     [] c.t = "cr"   -> CR(t)
-    [] c.t = "lf"   -> Index(t)
+    [] c.t = "lf"   -> IF t.lnm THEN CR(Index(t)) ELSE Index(t)      \* LF / VT / FF
+    [] c.t = "ind"  -> Index(t)
+    [] c.t = "nel"  -> CR(Index(t))
     [] c.t = "ri"   -> RevIndex(t)
     [] c.t = "bs"   -> BS(t)
-    [] c.t = "cup"  -> CUP(t, c.a, c.b)          \* a = column, b = row (0-based, may lie outside: clamped)
+    [] c.t = "cup"  -> CUPo(t, c.a, c.b)         \* a = column, b = row (0-based, may lie outside: clamped)
+    [] c.t = "cha"  -> CHA(t, c.a)               \* 1-based, 0 = default
+    [] c.t = "vpa"  -> VPA(t, c.a)
     [] c.t = "cuu"  -> CUU(t, N1(c.a))
     [] c.t = "cud"  -> CUD(t, N1(c.a))
     [] c.t = "cuf"  -> CUF(t, N1(c.a))
     [] c.t = "cub"  -> CUB(t, N1(c.a))
+    [] c.t = "cnl"  -> CNL(t, c.a)
+    [] c.t = "cpl"  -> CPL(t, c.a)
     [] c.t = "el"   -> EL(t, c.a)
     [] c.t = "ed"   -> ED(t, c.a)
+    [] c.t = "ech"  -> ECH(t, c.a)
     [] c.t = "ich"  -> ICH(t, c.a)
     [] c.t = "dch"  -> DCH(t, c.a)
     [] c.t = "il"   -> IL(t, c.a)
     [] c.t = "dl"   -> DL(t, c.a)
-    [] c.t = "stbm" -> DECSTBM(t, c.a, c.b)      \* 1-based, 0 = default
+    [] c.t = "stbm" -> DECSTBMo(t, c.a, c.b)     \* 1-based, 0 = default
     [] c.t = "sgr"  -> SGR(t, c.ps)
-    [] OTHER        -> t
+    [] c.t = "ht"   -> HT(t)
+    [] c.t = "hts"  -> HTS(t)
+    [] c.t = "tbc"  -> TBC(t, c.a)
+    [] c.t = "decom"  -> DECOM(t, c.a = 1)
+    [] c.t = "irm"    -> SetIRM(t, c.a = 1)
+    [] c.t = "decawm" -> DecSet(t, 7, c.a = 1)
+    [] c.t = "lnm"    -> [t EXCEPT !.lnm = (c.a = 1)]
+    [] c.t = "decsc"  -> DECSC(t)
+    [] c.t = "decrc"  -> DECRC(t)
+    [] c.t = "scosc"  -> SCOSC(t)
+    [] c.t = "scorc"  -> SCORC(t)
+    [] c.t = "so"   -> ShiftOut(t)
+    [] c.t = "si"   -> ShiftIn(t)
+    [] c.t = "scs"  -> Designate(t, c.a, IF c.b = 48 THEN "0" ELSE "B")     \* a = 0 / 1 (G0 / G1), b = final byte
+    [] OTHER        -> t                          \* queries (cpr, dsr, da) change nothing
 
+\* the subset the property lists (Listed) and what a VT100 documents next to it: text runs, IND / NEL, CHA / VPA / CNL / CPL,
+\* ECH, tab stops, origin / insert / autowrap / new-line mode, save and restore cursor, charsets (Ext); queries (Query)
 Listed == {"put", "cr", "lf", "ri", "bs", "cup", "cuu", "cud", "cuf", "cub", "el", "ed", "ich", "dch", "il", "dl", "stbm", "sgr"}
+Ext    == {"txt", "ind", "nel", "cha", "vpa", "cnl", "cpl", "ech", "ht", "hts", "tbc", "decom", "irm", "decawm", "lnm",
+           "decsc", "decrc", "scosc", "scorc", "so", "si", "scs"}
+Query  == {"cpr", "dsr", "da"}
 
 (* ---------------- console dialect (tolerated, DIVERGENCE only) ---------------- *)
 ConsoleIL(t, n0) ==
@@ -61,15 +156,19 @@ ConsoleDL(t, n0) ==
                                           ELSE IF y - 1 + n <= t.bot THEN g[y + n] ELSE BlankRow(t.w, t.pen.bg)],
                !.pend = FALSE]
 Dialect(t, c) ==
-  CASE c.t = "cuu"  -> <<[t EXCEPT !.cy = Max2(t.cy - N1(c.a), 0), !.pend = FALSE]>>
-    [] c.t = "cud"  -> <<[t EXCEPT !.cy = Min2(t.cy + N1(c.a), t.h - 1), !.pend = FALSE]>>
+  CASE c.t = "cuu"  -> <<[t EXCEPT !.cy = Max2(t.cy - N1(c.a), IF OM(t) THEN t.top ELSE 0), !.pend = FALSE]>>
+    [] c.t = "cud"  -> <<[t EXCEPT !.cy = Min2(t.cy + N1(c.a), IF OM(t) THEN t.bot ELSE t.h - 1), !.pend = FALSE]>>
+    [] c.t = "cpl"  -> <<[t EXCEPT !.cx = 0, !.cy = Max2(t.cy - N1(c.a), IF OM(t) THEN t.top ELSE 0), !.pend = FALSE]>>
+    [] c.t = "cnl"  -> <<[t EXCEPT !.cx = 0, !.cy = Min2(t.cy + N1(c.a), IF OM(t) THEN t.bot ELSE t.h - 1), !.pend = FALSE]>>
     [] c.t = "il"   -> <<ConsoleIL(t, c.a)>>
     [] c.t = "dl"   -> <<ConsoleDL(t, c.a)>>
     [] c.t = "stbm" -> IF c.b > t.h THEN <<t>> ELSE <<>>
+    [] c.t = "ht"   -> <<[HT(t) EXCEPT !.pend = FALSE]>>            \* a tab clears the last-column flag
+    [] c.t = "decrc" -> IF t.sc.pos = <<>> THEN <<t>> ELSE <<>>     \* nothing saved: nothing restored
     [] OTHER        -> <<>>
 Cands(t, c, strict) == IF strict THEN <<Ref(t, c)>> ELSE <<Ref(t, c)>> \o Dialect(t, c)
 
-(* ---------------- as-coded transcriptions of three known defects (findings/C15.json) ---------------- *)
+(* ---------------- as-coded transcriptions of known defects (findings/C15.json, fixed and open) ---------------- *)
 (* Never part of a verdict: when an observation is rejected, the trace specification appends ".as_coded" to the   *)
 (* reason if it is exactly what the defective code computes, so that the finding's signature matches this defect  *)
 (* and nothing else (a different wrong insert-lines is still a violation).                                        *)
@@ -82,10 +181,23 @@ AsCodedILRows(g, cy, bot, blank, n) ==       \* insert at the cursor row first, 
       del == SubSeq(ins, 1, bot) \o SubSeq(ins, bot + 2, h + 1)
   IN AsCodedILRows(del, cy, bot, blank, n - 1)
 AsCodedIL(t, n0) == [t EXCEPT !.grid = AsCodedILRows(t.grid, t.cy, t.bot, BlankRow(t.w, t.pen.bg), Min2(N1(n0), 2 * t.h))]
+\* ED in origin mode: both ends of the erased area are clamped into the scrolling region
+EDInRegion(t, n) == CASE n = 0 -> EraseRows(EL(t, 0), t.cy + 1, t.bot)
+                      [] n = 1 -> EraseRows(EL(t, 1), t.top, t.cy - 1)
+                      [] OTHER -> ED(t, n)
+\* HT that blanks the cell it starts from
+HTBlanking(t) ==
+  IF t.cx >= t.w - 1 THEN [t EXCEPT !.pend = FALSE]
+  ELSE [t EXCEPT !.grid[t.cy + 1][t.cx + 1] = [c |-> 32, fg |-> t.pen.fg, bg |-> t.pen.bg, fl |-> t.pen.fl, p |-> 0],
+                 !.cx = NextStop(t), !.pend = FALSE]
 AsCoded(t, c, rot) ==
+  LET stale == [t EXCEPT !.pend = (rot /\ t.cx = t.w - 1)] IN      \* the emulator's own pending flag decides
   CASE c.t = "il" -> <<AsCodedIL(t, c.a)>>
+    [] c.t = "ed" /\ OM(t) -> <<EDInRegion(t, c.a)>>
     [] c.t = "ed" /\ c.a = 1 -> <<ED1Exclusive(t)>>
-    [] c.t = "put" -> <<Put([t EXCEPT !.pend = (rot /\ t.cx = t.w - 1)], c.a, 1)>>   \* the emulator's own pending flag decides
+    [] c.t = "put" -> <<PutX(stale, c.a)>>
+    [] c.t = "txt" -> <<PutAll(stale, c.ps, 1)>>
+    [] c.t = "ht" -> <<HTBlanking(t)>>
     [] OTHER -> <<>>
 
 (* ---------------- observations and comparison ---------------- *)
@@ -129,9 +241,17 @@ SbEq(t, sb, strict) ==
   IF strict THEN Len(t.sb) = Len(sb) /\ \A i \in 1..Len(sb) : RowEq(t.sb[i], sb[i], TRUE)
   ELSE SubseqFrom(t.sb, sb, 1, 1, FALSE)
 
+\* tab stops and modes, like the region, only show in later behaviour; they are compared at once
+\* (tabs = the stops inside the screen, md = <<origin, insert, autowrap, new-line>> as 0 / 1)
+B01(b) == IF b THEN 1 ELSE 0
+TabsEq(t, tabs) == {x \in t.tabs : x < t.w} = {tabs[i] : i \in 1..Len(tabs)}
+ModesOf(t) == <<B01(OM(t)), B01(t.irm), B01(t.wrap), B01(t.lnm)>>
+ModesEq(t, md) == ModesOf(t) = md
+
 Matches(t, o, strict) ==
   /\ ShapeOK(o.g, t.w, t.h) /\ GridEq(t, o.g, strict) /\ CursorEq(t, o.cur)
   /\ SbEq(t, o.sb, strict) /\ PenEq(t, o.pen, strict) /\ RegionEq(t, o.reg)
+  /\ TabsEq(t, o.tabs) /\ ModesEq(t, o.md)
 
 \* first clause (sentence of the property) on which observation o differs from reference state t
 Why(t, o, strict) ==
@@ -142,14 +262,18 @@ Why(t, o, strict) ==
   ELSE IF ~SbEq(t, o.sb, strict) THEN "scrollback_keeps_lines_in_order"
   ELSE IF ~PenEq(t, o.pen, strict) THEN "screen_equals_reference.pen"
   ELSE IF ~RegionEq(t, o.reg) THEN "screen_equals_reference.region"
+  ELSE IF ~TabsEq(t, o.tabs) THEN "screen_equals_reference.tabstops"
+  ELSE IF ~ModesEq(t, o.md) THEN "screen_equals_reference.modes"
   ELSE "-"
 
 \* the observation a faithful emulator in state t would give
+RECURSIVE SetToSeq(_)
+SetToSeq(S) == IF S = {} THEN <<>> ELSE LET m == CHOOSE x \in S : \A y \in S : x <= y IN <<m>> \o SetToSeq(S \ {m})
 ObsCell(m) == <<m.c, m.fg, m.bg, FlMask(m.fl)>>
 ObsRow(r) == [x \in 1..Len(r) |-> ObsCell(r[x])]
 ObsOf(t) == [g |-> [y \in 1..t.h |-> ObsRow(t.grid[y])], cur |-> <<t.cx, t.cy>>,
              sb |-> [i \in 1..Len(t.sb) |-> ObsRow(t.sb[i])], pen |-> <<t.pen.fg, t.pen.bg, FlMask(t.pen.fl)>>,
-             reg |-> <<t.top, t.bot>>]
+             reg |-> <<t.top, t.bot>>, tabs |-> SetToSeq({x \in t.tabs : x < t.w}), md |-> ModesOf(t)]
 
 \* after a resize (not part of the listed subset: a VT100 has no resize) the reference adopts what the emulator shows
 CellOf(o) == [c |-> o[1], fg |-> o[2], bg |-> o[3], fl |-> UnMask(o[4]), p |-> 0]
@@ -157,7 +281,8 @@ RowOf(orow) == [x \in 1..Len(orow) |-> CellOf(orow[x])]
 Adopt(t, o, w, h, pend) ==
   [t EXCEPT !.w = w, !.h = h, !.grid = [y \in 1..h |-> RowOf(o.g[y])],
             !.cx = o.cur[1], !.cy = o.cur[2], !.pend = (pend /\ o.cur[1] = w - 1),
-            !.top = 0, !.bot = h - 1, !.sb = [i \in 1..Len(o.sb) |-> RowOf(o.sb[i])]]
+            !.top = 0, !.bot = h - 1, !.sb = [i \in 1..Len(o.sb) |-> RowOf(o.sb[i])],
+            !.tabs = {o.tabs[i] : i \in 1..Len(o.tabs)}]
 
 \* the view scrolled back by k lines shows the last h rows of (scrollback ++ screen) that end k lines above the bottom
 ViewOf(sb, g, k0) ==
@@ -178,6 +303,14 @@ CPR(x, y) == <<27, 91>> \o Digits(y + 1) \o <<59>> \o Digits(x + 1) \o <<82>>   
 ReplyOK(r, w, h) == \/ r.s = DSROK
                     \/ r.s = DA
                     \/ (r.x >= 0 /\ r.x < w /\ r.y >= 0 /\ r.y < h /\ r.s = CPR(r.x, r.y))
+
+\* what a query must be answered with in terminal state t.  In origin mode a VT100 reports the row relative to the
+\* top margin; the console dialect reports the screen row
+Replies(t, c, strict) ==
+  CASE c.t = "dsr" -> {DSROK}
+    [] c.t = "da"  -> {DA}
+    [] c.t = "cpr" -> {CPR(t.cx, t.cy - (IF OM(t) THEN t.top ELSE 0))} \cup (IF strict THEN {} ELSE {CPR(t.cx, t.cy)})
+    [] OTHER       -> {}
 
 WellFormedShape(t) ==
   /\ DOMAIN t.grid = 1..t.h /\ \A y \in 1..t.h : DOMAIN t.grid[y] = 1..t.w
